@@ -46,7 +46,21 @@ fn emit_system(ctx: &mut Ctx, id: u64, tasks: &[Value], family: &str, variant: &
     let policy = format!("{}_{}", family, variant);
     let mut claims: Vec<i64> = vec![];
     let mut calls = vec![];
-    if family == "fifo" {
+    let mut supply = json!({"k": "dedicated"});
+    if family == "es" {
+        // event sources = a FIFO server under a reservation (C04): claim from rta_event_source
+        supply = crate::drivers::ros2::gen_supply(&mut ctx.rng, if ctx.thorough { 6 } else { 4 });
+        let parts: Vec<Value> = tasks.iter().map(|t| json!({"k": "rbf", "a": t["a"], "c": {"k": "scalar", "c": t["C"]}})).collect();
+        let own = match crate::drivers::ros2::demand_rec(&json!({"k": "agg", "of": parts}), 2 * lim + 4, ctx.watchdog_ms) {
+            Some(o) => o,
+            None => return,
+        };
+        let inp = json!({"op": "ros2_es", "supply": supply, "lim": lim, "own": own});
+        let out = guarded(&inp, ctx.watchdog_ms, crate::drivers::ros2::call_ros2);
+        let r = out.get("ok").and_then(|x| x.as_i64()).unwrap_or(-1);
+        calls.push(json!({"op": "ros2_es", "out": out}));
+        claims = vec![r; n];
+    } else if family == "fifo" {
         let others: Vec<Value> = tasks.iter().map(|t| task_inp(t, "p")).collect();
         let container = ["agg", "slice", "boxed"][(id % 3) as usize];
         let inp = json!({"policy": "fifo", "lim": lim, "tua": {}, "others": others, "B": 0, "container": container});
@@ -109,7 +123,8 @@ fn emit_system(ctx: &mut Ctx, id: u64, tasks: &[Value], family: &str, variant: &
         return;
     }
     let nontrivial = (0..n).any(|i| claims[i] > u(&tasks[i]["C"]) as i64);
-    let rec = json!({"id": id, "policy": family, "variant": variant, "tasks": ts, "supply": {"k": "dedicated"},
+    let model_policy = if family == "es" { "fifo" } else { family };
+    let rec = json!({"id": id, "policy": model_policy, "variant": variant, "tasks": ts, "supply": supply,
                      "lim": lim, "src": tasks, "calls": calls, "nontrivial": nontrivial, "exact": exact_only});
     ctx.sink.raw(&rec);
 }
@@ -187,9 +202,9 @@ pub fn run(ctx: &mut Ctx) {
     }
     for tasks in sets {
         for fam in &families {
-            if fam == "fifo" {
+            if fam == "fifo" || fam == "es" {
                 id += 1;
-                emit_system(ctx, id, &tasks, "fifo", "p", lim, exact_only);
+                emit_system(ctx, id, &tasks, fam, "p", lim, exact_only);
             } else {
                 for v in ["p", "np", "lp", "fnp"] {
                     if exact_only && (v == "lp" || v == "fnp") {
